@@ -132,6 +132,30 @@ theorem overwrite_only_on_request (env : Env) (d : Disk) (m : Meta) (mode : Stri
         rw [this] at h
         cases h
 
+/-- **No creating entry point clobbers.**  Without `overwrite`, `export()` and the PT-TEMPO
+    entry points (`PtTempo(..., process_tensor_file=f)`, `pt_tempo_compute`; whatever else the
+    mode selection looks at) hand `mode='write'` to `FileProcessTensor`, so on a path that exists
+    in any state — complete, interrupted, unreadable — they raise and leave it as it was; only
+    the caller's `overwrite=True` yields `mode='overwrite'`. -/
+theorem entry_points_no_clobber :
+    (∀ other, flags.ptTempoMode false other = "write") ∧
+    (∀ other, flags.ptTempoMode true other = "overwrite") ∧
+    flags.exportMode false = "write" ∧ flags.exportMode true = "overwrite" ∧
+    (∀ (env : Env) (d : Disk) (m : Meta) (other : Bool), d ≠ .missing →
+      createFile flags env d (flags.ptTempoMode false other) m = .error .osError ∧
+      diskAfterCtor flags env d (flags.ptTempoMode false other) m = d) ∧
+    (∀ (env : Env) (d : Disk) (pt : SimplePT), d ≠ .missing →
+      exportW flags env d pt false = .error .osError) := by
+  have h1 : ∀ other, flags.ptTempoMode false other = "write" := by decide
+  refine ⟨h1, by decide, rfl, rfl, ?_, ?_⟩
+  · intro env d m other hd
+    rw [h1 other]
+    exact no_clobber env d m hd
+  · intro env d pt hd
+    rw [exportW_eq_writerW flags rfl]
+    unfold writerW
+    rw [show flags.exportMode false = "write" from rfl, (no_clobber env d pt.info hd).1]
+
 /-- **remove()** deletes exactly when the object is entitled: `remove()` on a
     non-removeable object deletes nothing and raises, on a removeable one it deletes; and
     `_removeable` is set exactly for temporary files the object created itself and for named
